@@ -2,7 +2,7 @@
 
 Scenario family from GenOom.tla (TLC); for every scenario the number N of library allocations of the
 failure-free run is measured, then the scenario is replayed N times failing exactly the n-th allocation
-(n = 1..N; quick tier: a stride through 1..N chosen from the seed plus the first 40 indices).  Every run is
+(every n = 1..N in both tiers).  Every run is
 validated by TLC against the envelope OomTrace.tla (life-cycle contract + no leak + usable afterwards) and
 against Sockets.tla (descriptor hygiene)."""
 import json
@@ -45,11 +45,7 @@ def run(ctx):
         for hid, line in sorted(scen.items()):
             j = json.loads(line)
             N = counts[hid]
-            if ctx.quick:
-                stride = max(1, N // 160)
-                idx = sorted(set(list(range(1, min(N, 40) + 1)) + list(range(1 + ctx.seed % stride, N + 1, stride)) + [N]))
-            else:
-                idx = list(range(1, N + 1))
+            idx = list(range(1, N + 1))      # every allocation index, in both tiers (about 8-9 thousand runs, < 1 min)
             per[j["name"]] = {"allocations": N, "indices_failed": len(idx)}
             for k in idx:
                 jj = dict(j)
@@ -64,9 +60,8 @@ def run(ctx):
     ctx.cov["distinct_nontrivial"] = ctx.cov["evaluations"] - n
     ctx.cov["rule"] = ("one run per (scenario, allocation index n) with exactly the n-th library allocation failing; scenarios from "
                        "GenOom.tla; distinct by (scenario, n); non-trivial = a fault was injected (the %d failure-free runs are "
-                       "not counted); quick tier fails a stride of indices, thorough every index" % n)
-    if not ctx.quick:
-        ctx.cov["exhaustive"] = True
+                       "not counted); every index is failed" % n)
+    ctx.cov["exhaustive"] = True
     with open(hist) as f:
         for i, line in enumerate(f):
             if i % max(1, total // 4) == 0:
